@@ -6,8 +6,9 @@ Open Scope N_scope.
 
 (** What the driver saw: building sequence number [i] failed; or all were
     built and the last one was executed: the recorded trace (one number per
-    plugin invocation), the returned error (0 = nil, else the plugin's error
-    code) and the final response (0 = none, 1 + rcode). *)
+    plugin invocation), the returned error (0 = nil, else the code of the plugin
+    whose error value came back, identified through wrapping; 9998 = an error
+    no plugin made) and the final response (0 = none, 1 + rcode). *)
 Inductive obs := OLoadFail (i : N) | ORun (tr : list N) (err resp : N).
 
 Inductive case :=
@@ -108,7 +109,7 @@ Definition spec (c : case) : bool :=
   end.
 
 (** Non-trivial: the executed program has a return or goto inside a sequence
-    that is itself entered by jump/goto, or a wrapper that runs its
+    that is itself entered by jump/goto or used as a plain action ($seq), or a wrapper that runs its
     continuation twice; rule text with a '!' or surplus blanks. *)
 Fixpoint has_ret_goto (rs : rules) : bool :=
   match rs with
@@ -116,7 +117,7 @@ Fixpoint has_ret_goto (rs : rules) : bool :=
   | RCons (Rule _ a) rest =>
     match a with
     | Return | Goto _ => true
-    | Jump t => has_ret_goto t || has_ret_goto rest
+    | Jump t | Call t => has_ret_goto t || has_ret_goto rest
     | _ => has_ret_goto rest
     end
   end.
@@ -125,7 +126,7 @@ Fixpoint deep (rs : rules) : bool :=
   | RNil => false
   | RCons (Rule _ a) rest =>
     match a with
-    | Jump t | Goto t => has_ret_goto t || deep t || deep rest
+    | Jump t | Goto t | Call t => has_ret_goto t || deep t || deep rest
     | Wrap w => (2 <=? w mod 3) || deep rest
     | _ => deep rest
     end
